@@ -74,6 +74,8 @@ type VC struct {
 	oblNames  map[string]int
 	typeTags  map[string]int
 	boxed     map[*Term]Val
+	boxedType map[*Term]types.Type
+	pendingSig *types.Signature
 	notes     []string
 	tagFilter string
 	witnesses []namedTerm
@@ -291,38 +293,47 @@ func (vc *VC) addGlobalFact(f *Term) {
 	vc.gfacts = append(vc.gfacts, f)
 }
 
-// freeBound lists bound variables occurring free in t.
+// freeBound lists bound variables occurring free in t (memoised over the term DAG).
+var freeBoundMemo = map[int][]*Term{}
+
 func freeBound(t *Term) []*Term {
+	if r, ok := freeBoundMemo[t.ID]; ok {
+		return r
+	}
 	var out []*Term
-	seen := map[int]bool{}
-	var rec func(t *Term, bound map[*Term]bool)
-	rec = func(t *Term, bound map[*Term]bool) {
-		if t.IsBound {
-			if !bound[t] && !seen[t.ID] {
-				seen[t.ID] = true
-				out = append(out, t)
-			}
-			return
+	switch {
+	case t.IsBound:
+		out = []*Term{t}
+	case len(t.Args) == 0:
+	case t.Op == "forall" || t.Op == "exists":
+		binders := map[*Term]bool{}
+		for i := 0; i < t.NBind; i++ {
+			binders[t.Args[i]] = true
 		}
-		if len(t.Args) == 0 {
-			return
-		}
-		if t.Op == "forall" || t.Op == "exists" {
-			nb := map[*Term]bool{}
-			for k := range bound {
-				nb[k] = true
+		for _, v := range freeBound(t.Args[t.NBind]) {
+			if !binders[v] {
+				out = append(out, v)
 			}
-			for i := 0; i < t.NBind; i++ {
-				nb[t.Args[i]] = true
-			}
-			rec(t.Args[t.NBind], nb)
-			return
 		}
+	default:
+		var seen map[*Term]bool
 		for _, a := range t.Args {
-			rec(a, bound)
+			fa := freeBound(a)
+			if len(fa) == 0 {
+				continue
+			}
+			if seen == nil {
+				seen = map[*Term]bool{}
+			}
+			for _, v := range fa {
+				if !seen[v] {
+					seen[v] = true
+					out = append(out, v)
+				}
+			}
 		}
 	}
-	rec(t, map[*Term]bool{})
+	freeBoundMemo[t.ID] = out
 	return out
 }
 
